@@ -2,23 +2,7 @@
 
 package db
 
-import (
-	"database/sql"
-	"time"
-)
-
-// VerifOpen builds a DB over an already opened *sql.DB using the sqlite3
-// dialect (mirrors OpenSQL; lets the harness put a seam driver underneath).
-func VerifOpen(sdb *sql.DB) (*DB, error) {
-	d := &DB{sql: sdb, driverName: "sqlite3"}
-	if err := d.createTables("sqlite3"); err != nil {
-		return nil, err
-	}
-	if err := d.prepareStatements("sqlite3"); err != nil {
-		return nil, err
-	}
-	return d, nil
-}
+import "time"
 
 // VerifSetNow replaces the package clock (nil restores time.Now).
 func VerifSetNow(f func() time.Time) {
